@@ -24,7 +24,8 @@ RULE = ("bounded-exhaustive small-scope exploration of source texts, each a fres
         "include graph over 2 files (thorough: 3) with bodies of <= 3 (2) statements from {.include a/b(/c), .once, nop(, .end)}, judged "
         "against a reference expansion (finite: ok with that many nops; endless: a reported error); (j) every Python codec name and alias as "
         "--charset through the command line x 8 sources; (k) 8 astronomically large/small values x 58 consumers x 2 orders; (l) 25 programs with 10-97 statements whose size depends on their "
-        "address while the link base or an earlier size is still unknown, each within a 20 s budget. Oracle: the outcome is 'ok' or 'fail with >= 1 error diagnostic' - never an internal "
+        "address while the link base or an earlier size is still unknown, each within a 20 s budget, and two programs of 24 such statements "
+        "whose early attempts end in a circle (8 s budget; recorded findings). Oracle: the outcome is 'ok' or 'fail with >= 1 error diagnostic' - never an internal "
         "exception, a hang (step budget of hook 2, wall-clock back-stop) or a failure without diagnostic. state = one source text; "
         "non-trivial = distinct text whose outcome is not 'ok'")
 ASSUMPTIONS = ["non-termination is decided by the step budget in deferred.wait() (hook 2) and a wall-clock back-stop; large finite work is not a violation "
@@ -430,9 +431,6 @@ def check(case, r, tier):
 
         class Budget(BaseException):
             pass
-
-        def over(*_a):
-            raise Budget()
         progs = []
         for n in (10, 20, 40, 97):
             progs.append(("repeat-even-%d" % n, ".repeat %d. { .even\n.byte 1 }\n" % n))
@@ -442,23 +440,67 @@ def check(case, r, tier):
             progs.append(("skips-late-size-%d" % n, ".link 1000\n.blkb a\n" + "".join(". = a+%d.\n" % (2 * i + 2000) for i in range(n)) + "a = 3\n"))
             progs.append(("ascii-dot-%d" % n, "".join(".ascii <.&77>\n.even\n" for _ in range(n // 2)) + ".link 3000\n"))
         progs.append(("repeat-char-even", ".repeat 'a { .even\n"))
-        for name, text in progs:
+        # the same growth where an early attempt ends in a *circle* (which is not remembered) instead of in "not known yet":
+        # recorded, unrepaired findings (DESIGN.md section 17) - a shorter budget, since running out of it is the expected outcome
+        cyclic = [("skips-between-cancelling-labels-24", ".link 1000+e-s\ns: " + "nop\n. = . + 2\n" * 24 + "e: nop\n"),
+                  ("sizes-of-dot-without-link-24", ".blkb 2-<.&1>\n" * 24)]
+        for name, text in progs + cyclic:
+            budget = 8 if (name, text) in cyclic else 20
+            fired = []
+
+            def over(*_a):
+                fired.append(1)
+                raise Budget()
             old = signal.signal(signal.SIGALRM, over)
-            signal.setitimer(signal.ITIMER_REAL, 20)
+            signal.setitimer(signal.ITIMER_REAL, budget)
+            out = None
             try:
-                out = judge(text, r, ("relayout", name), False)
-                status = out.status
+                out = driver.assemble([("p.mac", text)])
             except Budget:
-                status = "over-budget"
-                if driver.module_state_dirty():
-                    driver.reset_module_state()
+                pass
             finally:
                 signal.setitimer(signal.ITIMER_REAL, 0)
                 signal.signal(signal.SIGALRM, old)
-            if status == "over-budget":
+            r.states += 1
+            if fired:
+                # (the interrupt may surface as any exception raised while the stack unwinds: the timer decides)
+                if driver.module_state_dirty():
+                    driver.reset_module_state()
                 r.ran("hang", key=("relayout", name))
-                r.violation("hang:work-doubles-with-every-address-dependent-statement", "%s: not assembled within 20 s (%d bytes of source)" % (name, len(text)),
-                            {"k": "text", "text": text, "tree": False}, "ok or fail", "no result within 20 s")
+                sig = ("hang:work-doubles-with-every-address-dependent-statement" if (name, text) not in cyclic else
+                       "hang:work-doubles:attempts-that-end-in-a-circle:" + name.rsplit("-", 1)[0])
+                r.violation(sig, "%s: not assembled within %d s (%d bytes of source)" % (name, budget, len(text)),
+                            {"k": "relayout-one", "name": name, "text": text, "budget": budget}, "ok or fail", "no result within %d s" % budget)
+                continue
+            r.ran(out.cls(), key=("relayout", name), nontrivial=True)
+            if out.status not in ("ok", "fail", "resource"):
+                r.violation("%s:%s@%s" % (out.status, out.exc, out.site) if out.status == "crash" else out.status, "layout program %s" % name, {"k": "text", "text": text, "tree": False}, "ok or fail", out.brief())
+        return
+    if k == "relayout-one":
+        import signal
+        import time as _t
+        t0 = _t.time()
+
+        class B2(BaseException):
+            pass
+
+        def over2(*_a):
+            raise B2()
+        old = signal.signal(signal.SIGALRM, over2)
+        signal.setitimer(signal.ITIMER_REAL, case["budget"])
+        try:
+            driver.assemble([("p.mac", case["text"])])
+            done = True
+        except B2:
+            done = False
+            if driver.module_state_dirty():
+                driver.reset_module_state()
+        finally:
+            signal.setitimer(signal.ITIMER_REAL, 0)
+            signal.signal(signal.SIGALRM, old)
+        r.ran("ok" if done else "hang", key=None)
+        if not done:
+            r.violation("hang:work-doubles:replay", "%s: not assembled within %d s" % (case["name"], case["budget"]), case, "ok or fail", "no result in %.0f s" % (_t.time() - t0))
         return
     if k == "cli-mute":
         # a failing run says why whatever -W options are given: every catalogue error x the -Wno- options that could name it
